@@ -857,7 +857,7 @@ func SpecContains(s string, sub string) bool { return false }
 //@ func RedisInput.syncMeta
 //@   arith int
 //@   properties C06
-//@   replay syncer_syncMeta syncer_rekeyFailedSnapshot
+//@   replay syncer_syncMeta syncer_rekeyFailedSnapshot syncer_crossIdPsync
 //@   ghost var chCleared bool = false
 //@   requires nonnil: ri != nil && redisCli != nil
 //@   modifies heap, chCleared, outInCache, snapLeft, snapSize, outSpAsked, chId, chRight, chEmpty, refusedBySource
@@ -874,6 +874,7 @@ func SpecContains(s string, sub string) bool { return false }
 //@   ghost var outSpAsked mathint = 0
 //@   set outSpAsked = result0.Offset after call getOutputStartPoint
 //@   assert at call pSync: continues_from_the_cache_end_only_if_the_cache_serves_the_target_position: offset.RunId != "?" ==> (offset.Offset == outSp.Offset && offset.RunId == outSp.RunId) || (offset.Offset == locSp.Offset && offset.RunId == locSp.RunId && (outInCache || outSp.RunId == "?"))
+//@   assert at call pSync: the_cache_serves_the_target_position_only_under_the_positions_own_replication_id: offset.RunId != "?" && outSp.RunId != "?" && !(offset.Offset == outSp.Offset && offset.RunId == outSp.RunId) ==> outSp.RunId == locSp.RunId
 //@   assert at call SetRunId: refused_or_unusable_cache_is_deleted_before_it_is_relabelled: isFullSync || clearLocal ==> chCleared
 //   refusedBySource  1 once the source has answered this connection's PSYNC with a full resync
 //@   ghost var refusedBySource mathint = 0
